@@ -416,3 +416,99 @@ Proof.
   intros v1 v2 H. unfold retry_key_nonce. destruct (v1 =? QUIC_VERSION_2), (v2 =? QUIC_VERSION_2); try congruence;
     cbn [fst snd]; split; vm_compute; discriminate.
 Qed.
+
+(* ------------------------------------------------------------------ the hypotheses are satisfiable *)
+(* A collision-free "HMAC" over Z-valued bytes: every output byte is a Goedel number of (hash, key length, key, message);
+   the digest has the announced length.  It satisfies hmac_ideal and hmac_len, so the theorems above are not vacuous.
+   (No function into 32 REAL bytes is collision free; the hypotheses idealise, as H-AEAD does.) *)
+Definition zn (z : Z) : Z := if 0 <=? z then 2 * z else - 2 * z - 1.
+Fixpoint code (l : list Z) : Z := match l with [] => 0 | x :: t => 2 ^ (zn x) * (2 * code t + 1) end.
+Definition toy_hmac (h : Z) (k m : list Z) : list Z :=
+  repeat (code (h :: Zlen k :: k ++ m)) (Z.to_nat (if h =? 384 then 48 else 32)).
+
+Lemma zn_nonneg : forall z, 0 <= zn z.
+Proof. intro z. unfold zn. destruct (0 <=? z) eqn:E; [apply Z.leb_le in E | apply Z.leb_gt in E]; lia. Qed.
+
+Lemma zn_inj : forall x y, zn x = zn y -> x = y.
+Proof.
+  intros x y. unfold zn. destruct (0 <=? x) eqn:E1; destruct (0 <=? y) eqn:E2;
+    try apply Z.leb_le in E1; try apply Z.leb_gt in E1; try apply Z.leb_le in E2; try apply Z.leb_gt in E2; lia.
+Qed.
+
+Lemma code_nonneg : forall l, 0 <= code l.
+Proof.
+  induction l as [|x t IH]; cbn [code]; [lia|]. apply Z.mul_nonneg_nonneg; [|lia].
+  apply Z.pow_nonneg. lia.
+Qed.
+
+Lemma code_cons_pos : forall x t, 0 < code (x :: t).
+Proof.
+  intros x t. cbn [code]. pose proof (code_nonneg t). apply Z.mul_pos_pos; [|lia].
+  apply Z.pow_pos_nonneg; [lia | apply zn_nonneg].
+Qed.
+
+Lemma pow2_odd_unique : forall a, 0 <= a -> forall c b d, 0 <= c -> 0 <= b -> 0 <= d ->
+  2 ^ a * (2 * b + 1) = 2 ^ c * (2 * d + 1) -> a = c /\ b = d.
+Proof.
+  intros a Ha. pattern a. apply natlike_ind; [| |exact Ha]; clear a Ha.
+  - intros c b d Hc Hb Hd H. rewrite Z.pow_0_r in H.
+    assert (c = 0 \/ 0 < c) as [-> | Hpos] by lia.
+    + rewrite Z.pow_0_r in H. lia.
+    + exfalso. replace c with (Z.succ (c - 1)) in H by lia. rewrite Z.pow_succ_r in H by lia.
+      remember (2 ^ (c - 1) * (2 * d + 1)) as q. assert (2 * b + 1 = 2 * q) by (subst q; lia). lia.
+  - intros a Ha IH c b d Hc Hb Hd H. rewrite Z.pow_succ_r in H by lia.
+    assert (c = 0 \/ 0 < c) as [-> | Hpos] by lia.
+    + exfalso. rewrite Z.pow_0_r in H. remember (2 ^ a * (2 * b + 1)) as q. assert (2 * q = 2 * d + 1) by (subst q; lia). lia.
+    + replace c with (Z.succ (c - 1)) in H by lia. rewrite Z.pow_succ_r in H by lia.
+      destruct (IH (c - 1) b d ltac:(lia) Hb Hd) as [E1 E2]; [lia|]. split; lia.
+Qed.
+
+Lemma code_inj : forall l1 l2, code l1 = code l2 -> l1 = l2.
+Proof.
+  induction l1 as [|x t IH]; intros [|y u] H.
+  - reflexivity.
+  - exfalso. pose proof (code_cons_pos y u). change (code []) with 0 in H. lia.
+  - exfalso. pose proof (code_cons_pos x t). change (code []) with 0 in H. lia.
+  - cbn [code] in H. destruct (pow2_odd_unique _ (zn_nonneg x) _ _ _ (zn_nonneg y) (code_nonneg t) (code_nonneg u) H) as [E1 E2].
+    apply zn_inj in E1. apply IH in E2. congruence.
+Qed.
+
+Lemma toy_head : forall n c d, 1 <= n -> (1 <= d)%nat -> nth 0 (ztake n (repeat c d)) 0 = c.
+Proof.
+  intros n c d Hn Hd. unfold ztake. destruct (Z.to_nat n) as [|n'] eqn:E; [lia|]. destruct d as [|d']; [lia|]. reflexivity.
+Qed.
+
+Lemma toy_dsz_pos : forall h : Z, (1 <= Z.to_nat (if (h =? 384)%Z then 48%Z else 32%Z))%nat.
+Proof. intro h. destruct (h =? 384); [change (Z.to_nat 48) with 48%nat | change (Z.to_nat 32) with 32%nat]; lia. Qed.
+
+Example toy_hmac_ideal : hmac_ideal toy_hmac.
+Proof.
+  intros h1 k1 m1 h2 k2 m2 n Hn Hk H. apply (f_equal (fun l => nth 0 l 0)) in H. unfold toy_hmac in H.
+  assert (Hn1 : 1 <= n) by lia.
+  rewrite (toy_head n _ _ Hn1 (toy_dsz_pos h1)), (toy_head n _ _ Hn1 (toy_dsz_pos h2)) in H.
+  apply code_inj in H. injection H as -> _ H. assert (L : length k1 = length k2) by (unfold Zlen in Hk; lia).
+  destruct (app_eq_len _ _ _ _ L H) as [-> ->]. auto.
+Qed.
+
+Example toy_hmac_len : hmac_len toy_hmac.
+Proof.
+  intros cs a k m H. destruct (suite_cases cs a H) as [(_ & -> & _) | [(_ & -> & _) | (_ & -> & _)]];
+    unfold toy_hmac, Zlen; rewrite repeat_length; reflexivity.
+Qed.
+
+(* every secret derived with the toy HMAC starts with a positive byte *)
+Lemma toy_next_secret_head : forall cs s v o, next_secret toy_hmac cs s v = Ok o -> 0 < nth 0 o 0.
+Proof.
+  intros cs s v o H. unfold next_secret in H. destruct (cipher_suite_hash cs) as [a|] eqn:C; [|discriminate].
+  assert (B : 0 < snd a <= snd a) by (destruct (suite_cases cs a C) as [(_ & -> & _) | [(_ & -> & _) | (_ & -> & _)]]; cbn; lia).
+  destruct (expand_label_single toy_hmac _ _ _ _ _ _ B H) as (info & _ & ->). unfold toy_hmac.
+  rewrite toy_head; [apply code_cons_pos | lia | apply toy_dsz_pos].
+Qed.
+
+(* so the chain started from the all-zero secret never comes back to it *)
+Example toy_chain_fresh : forall cs v dsz n, n <> O -> 1 <= dsz -> secret_at toy_hmac cs v (zeros dsz) n <> Ok (zeros dsz).
+Proof.
+  intros cs v dsz n Hn Hd E. destruct n as [|n]; [contradiction|]. cbn [secret_at] in E.
+  destruct (secret_at toy_hmac cs v (zeros dsz) n) as [s|]; [|discriminate]. cbn [bind] in E.
+  apply toy_next_secret_head in E. unfold zeros in E. destruct (Z.to_nat dsz) eqn:D; [lia|]. cbn in E. lia.
+Qed.
